@@ -8,6 +8,7 @@
    the model's run and the theorems below hold for it; set-up, record update and post-loop statements pinned as text. *)
 From Coq Require Import List Reals.
 From ML Require Import Ops Vec VecR MatR LinAlg NPNum SCML C15Proof C15Best C15Src.
+From ML Require Import PinsC15.
 From MLgen Require Import Src_scml.
 Import ListNotations.
 Open Scope R_scope.
@@ -75,3 +76,7 @@ Proof.
 Qed.
 Print Assumptions C15_source.
 Definition C15_source_skeleton := scml_skeleton_ok.
+
+(* text-level tie: the functions this property's hand-written model and harness were written from are unchanged
+   (digests regenerated from /repo on every run; Proofs/PinsC15.v) *)
+Definition C15_source_pins := pins_C15_ok.
